@@ -4,8 +4,8 @@ package gen
 
 import (
 	"math"
-	"os"
 	"math/big"
+	"os"
 	"strings"
 
 	"verif/internal/dec"
@@ -324,7 +324,15 @@ func SpecialValue(r *rng.R) dec.D {
 	if f == dec.Inf && r.Bool() {
 		return OverflowInf(r)
 	}
-	return dec.Special(f, r.Bool())
+	d := dec.Special(f, r.Bool())
+	if f != dec.Inf && r.Chance(1, 3) {
+		// a NaN that a program made out of an existing value (v.Form = NaN): the
+		// exponent field still holds the old exponent, the coefficient is the
+		// payload. The exponent of a NaN carries no meaning.
+		d.C = big.NewInt(r.Range(0, 999999))
+		d.E = r.Range(-30, 30)
+	}
+	return d
 }
 
 // OverflowInf draws an infinity in the representation the library produces
